@@ -37,6 +37,38 @@ Dec(s, i, mode, plus) ==
   ELSE <<c>> \o Dec(s, i + 1, mode, plus)
 Decode(s, mode, plus) == Dec(s, 1, mode, plus)
 
+(* The same decoder with the further options of the decoder configuration (C15 "per configuration"): %uHHHH decoding
+   (u_encoding_decode: overlong %u00HH gives HH, other code points go through the best-fit map, unknown ones become '?'),
+   termination at an encoded NUL (nul_encoded_terminates) and at a raw NUL (nul_raw_terminates).
+   o = [mode, plus, udec, nulenc, nulraw].  The best-fit map is restricted to the code points the recorded rows use. *)
+BF(c1, c2) == IF c1 = 1 /\ c2 = 0 THEN 65 ELSE IF c1 = 255 /\ c2 = 15 THEN 47 ELSE 63
+DecU(h1, h2, h3, h4) == LET c1 == X2c(h1, h2)  c2 == X2c(h3, h4) IN IF c1 = 0 THEN c2 ELSE BF(c1, c2)
+RECURSIVE DecX(_, _, _)
+\* a byte that came out of a percent form: an encoded NUL may end the field
+EmitEnc(s, c, next, o) == IF c = 0 /\ o.nulenc THEN <<>> ELSE <<c>> \o DecX(s, next, o)
+DecX(s, i, o) ==
+  IF i > Len(s) THEN <<>> ELSE
+  LET c == s[i] IN
+  IF c = PCT THEN
+     IF i + 2 <= Len(s) THEN
+        IF o.udec /\ s[i+1] \in {117, 85} THEN
+           IF i + 5 <= Len(s) THEN
+              IF IsHex(s[i+2]) /\ IsHex(s[i+3]) /\ IsHex(s[i+4]) /\ IsHex(s[i+5])
+              THEN EmitEnc(s, DecU(s[i+2], s[i+3], s[i+4], s[i+5]), i + 6, o)
+              ELSE CASE o.mode = "preserve" -> <<PCT>> \o DecX(s, i + 1, o)
+                     [] o.mode = "remove"   -> DecX(s, i + 1, o)
+                     [] o.mode = "process"  -> EmitEnc(s, DecU(s[i+2], s[i+3], s[i+4], s[i+5]), i + 6, o)
+           ELSE IF o.mode = "remove" THEN DecX(s, i + 1, o) ELSE <<PCT>> \o DecX(s, i + 1, o)        \* not enough bytes for %uHHHH
+        ELSE IF IsHex(s[i+1]) /\ IsHex(s[i+2]) THEN EmitEnc(s, HexVal(s[i+1]) * 16 + HexVal(s[i+2]), i + 3, o)
+        ELSE CASE o.mode = "preserve" -> <<PCT>> \o DecX(s, i + 1, o)
+               [] o.mode = "remove"   -> DecX(s, i + 1, o)
+               [] o.mode = "process"  -> EmitEnc(s, X2c(s[i+1], s[i+2]), i + 3, o)
+     ELSE IF o.mode = "remove" THEN DecX(s, i + 1, o) ELSE <<PCT>> \o DecX(s, i + 1, o)
+  ELSE IF c = PLUS THEN <<(IF o.plus THEN SP ELSE PLUS)>> \o DecX(s, i + 1, o)
+  ELSE IF c = 0 /\ o.nulraw THEN <<>>
+  ELSE <<c>> \o DecX(s, i + 1, o)
+DecodeX(s, o) == DecX(s, 1, o)
+
 RECURSIVE SplitOn(_, _, _, _)
 SplitOn(s, i, sep, acc) ==
   IF i > Len(s) THEN <<acc>>
@@ -55,6 +87,10 @@ RawPairs(s) ==
 
 RefPairs(s, mode, plus) ==
   LET r == RawPairs(s) IN [j \in 1..Len(r) |-> <<Decode(r[j][1], mode, plus), Decode(r[j][2], mode, plus)>>]
+RefPairsX(s, o) ==
+  LET r == RawPairs(s) IN [j \in 1..Len(r) |-> <<DecodeX(r[j][1], o), DecodeX(r[j][2], o)>>]
+\* with the further options off the extended decoder is the plain one
+XAgrees(s, mode, plus) == DecodeX(s, [mode |-> mode, plus |-> plus, udec |-> FALSE, nulenc |-> FALSE, nulraw |-> FALSE]) = Decode(s, mode, plus)
 
 (* ------------------------------------------------------------------ streaming model (the code's shape) *)
 \* parser record: st \in {"KEY","VALUE"}, name = <<>> (NULL) or <<bytes>>, bb = sequence of pieces, params
